@@ -50,13 +50,15 @@ CLAIMED.update({
                  "displayed only from the output-slot holder. " + BRK + "Exhaustive small scope (depth 4) + 400 random histories per quick run; "
                  "HTTP surface: pairs of real HTTPS requests /i/{a}, /o/{b} on a real Server with IDs differing only by what a careless normalisation "
                  "would erase, outcome predicted by running the broker model on the percent-decoded path elements (theorem c01_http_pairing: the second "
-                 "request attaches iff the decoded elements are the same bytes).",
+                 "request attaches iff the decoded elements are the same bytes); refused /o requests sent as curl -T- sends them (Expect: 100-continue) must be "
+                 "answered at once; refusals arriving while a flood has filled the operator's queue must still be announced once the terminal catches up.",
          "note": TB + "sync.Mutex atomicity, ConstantTimeCompare = byte equality, unguessable /io sentinel are assumptions; net/http's mux decodes the {id} element.",
          "technique": "Coq proof (state invariants by induction over operation lists) + hook-serialised differential correspondence judged by vm_compute"},
  "C06": {"text": "Coq theorem over EVERY operation history: if both slots are held and one holder is a half of /io request r, the other is a half "
                  "of the same request (corollary of the same-key invariant; keys of different requests differ). " + BRK + "All 24 admission orders "
                  "of two requests on 4 base states, 480 of the 1440 orders of three requests, random mixed histories; plus a stress TEST with "
-                 "really concurrent ConnectInOut calls, also under Go's race detector (catches data races on the key counter, which the serialised harness cannot).",
+                 "really concurrent ConnectInOut calls, staggered arrivals (requests that come and go between the arrivals of others), two simultaneous "
+                 "/io requests from ONE client address on a real Server (48 rounds), also under Go's race detector (catches data races on the key counter, which the serialised harness cannot).",
          "note": TB + "per-request key distinctness relies on Go's atomic counter (assumption; exercised by the stress test).",
          "technique": "Coq proof (invariant) + exhaustive admission-order correspondence judged by vm_compute + concurrent stress test"},
  "C04": {"text": "Coq theorems: a release cancels the peer, whose proxy (if running) has ended and logged its closure in the same step; exactly one "
@@ -88,7 +90,8 @@ CLAIMED.update({
                  "channel before proxyOut returns (so before the close notice); queues bounded. That model is tied to the code by replaying the "
                  "stalled-terminal cases (capacity 1-3, scripted drains) on it: chunks logged/shown per block and the reader's run-ahead must agree. Last hop (lib/opshell, Model/Terminal.v): theorem - "
                  "however a byte sequence is cut into reads, the terminal is written that sequence with LF rendered CR LF (x/term, raw mode; proved "
-                 "lossless); tied by 200 chunkings of UTF-8 / non-UTF-8 / control bytes through the real Shell with its output captured. " + BRK,
+                 "lossless); tied by 200 chunkings of UTF-8 / non-UTF-8 / control bytes through the real Shell with its output captured, also with the whole "
+                 "Shell.Do running and a real SIGWINCH after every chunk; read scripts include runs of 99-250 zero-length reads. " + BRK,
          "note": TB + "relative speeds are explored as orders inside synctest, not proved over a queue model.",
          "technique": "Coq proof (invariants over all interleavings of a fine-grained concurrent model + coarse broker model) + read-script and stalled-terminal replay correspondence judged by vm_compute"},
  "C11": {"text": "Coq theorems: input 'Shell I/O' records = lines written, in order, minus at most the failing last one; each displayed chunk has "
@@ -197,7 +200,8 @@ CLAIMED["C08"] = {"text": "Coq theorems (for every parser satisfying load_ok): o
                  "0600/0700 are owner-only. PARTIAL: load_ok (a cut or damaged file either still yields the original MATCHING pair or is an error other "
                  "than not-exist) is a hypothesis about txtar/PEM/x509, CHECKED on every run on the real parsers by enumerating EVERY prefix length of a "
                  "real cache file (~815 crash points), 400 single-byte corruptions in every region, restart/delete/no-cache histories (also on a cache whose "
-                 "certificate has expired) and 0-4 nested "
+                 "certificate has expired; runs that OVERLAP in time: real listeners kept up while the cache is deleted and other runs start, each must keep "
+                 "presenting the key it started with) and 0-4 nested "
                  "not-yet-existing directories, with key identity, key/certificate match, file bytes+mtime and permission bits observed.",
          "note": TB + "crash = constructed prefix (no process is killed mid-write); umask 022; mode literals checked in the source per run.",
          "technique": "Coq proof under an explicit parser hypothesis + exhaustive crash-point / corruption enumeration judged by vm_compute"}
